@@ -84,7 +84,7 @@ Definition c10_core_step (c0 tdrv tis : Z) (w : wst) (o : op) (x : out) : option
         | _ => Some w'
         end
       else Some w'
-  | DropHandle _ _ => Some w'
+  | DropHandle _ _ | CloseHandle _ _ => Some w'
   | Close => if closed_after then Some w' else None
   | Tick d => Some (mkW (now + d) (w_tprev w) (w_hb w) (w_hbenv w) (w_bound w) (w_inactive w) closed_after)
   | SetDriverHb t => Some (mkW now (w_tprev w) t (w_hbenv w) (w_bound w) (w_inactive w) closed_after)
